@@ -118,7 +118,10 @@ def handle (j : J) : Except String J := do
       | .null => pure none
       | .obj [("some", v)] => do pure (some (← toJVal v))
       | _ => throw "bad cluster"
-    pure (.obj [("rs", .arr ((pass cfg t cl).map ofPass))])
+    let rs := match j.get? "loadFault" with
+      | some (.bool true) => passLoadFailed cl
+      | _ => pass cfg t cl
+    pure (.obj [("rs", .arr (rs.map ofPass))])
   | op => throw s!"bad op {op}"
 
 end Koreo.Driver.RF45
